@@ -196,6 +196,20 @@ func (c16) Shrink(scn json.RawMessage) []json.RawMessage {
 	return out
 }
 
+// c16Probe, when set, makes a C16 run register instrumented extensions and
+// keep their log as it stood when the call returned (used by C17's
+// cancellation scenarios, which judge hook balance rather than the response).
+var c16Probe *c16ProbeT
+
+type c16ProbeT struct {
+	NExt        int
+	HasResult   map[string]bool
+	Run         *ExtRun
+	LogAtReturn []string
+	Returned    bool
+	HasData     bool
+}
+
 func parseDoc(q string) (*graphqlDoc, error) {
 	src := source.NewSource(&source.Source{Body: []byte(q), Name: "GraphQL request"})
 	return parser.Parse(parser.ParseParams{Source: src})
@@ -238,7 +252,15 @@ func (c16) Run(t TestingT, scn json.RawMessage, tape *Tape) *Outcome {
 	pan := Bubble(t, s, func() {
 		fakeStart = time.Now()
 		var w *World
-		if sc.Ext {
+		if c16Probe != nil {
+			// run on behalf of C17: instrumented extensions whose log is judged there
+			c16Probe.Run = &ExtRun{HasResult: c16Probe.HasResult}
+			var exts []graphql.Extension
+			for i := 0; i < c16Probe.NExt; i++ {
+				exts = append(exts, &SimExt{N: extName(i), R: c16Probe.Run, Detach: sc.ExtDetach})
+			}
+			w = NewWorld("A", exts...)
+		} else if sc.Ext {
 			w = NewWorld("A", &SimExt{N: "E1", R: &ExtRun{HasResult: map[string]bool{}}, Detach: sc.ExtDetach})
 		} else {
 			w = NewWorld("A")
@@ -339,6 +361,13 @@ func (c16) Run(t TestingT, scn json.RawMessage, tape *Tape) *Outcome {
 				res = graphql.ExecutePlan(plan, graphql.ExecuteParams{Schema: w.Schema, Root: rootObj, Args: vars, Context: rctx})
 			} else {
 				res = graphql.Do(graphql.Params{Schema: w.Schema, RequestString: sc.Query, RootObject: rootObj, VariableValues: vars, Context: rctx})
+			}
+			if c16Probe != nil {
+				c16Probe.Run.mu.Lock()
+				c16Probe.LogAtReturn = append([]string(nil), c16Probe.Run.Log...)
+				c16Probe.Run.mu.Unlock()
+				c16Probe.Returned = true
+				c16Probe.HasData = res != nil && res.Data != nil
 			}
 			tc.Out["r"] = MarshalResult(res)
 			returned = res
